@@ -548,6 +548,8 @@ pub fn judge(s: &Scenario, r: &RunResult) -> Judged {
         } else {
             format!("crash/{}", c.split_whitespace().take(4).collect::<Vec<_>>().join("-"))
         };
+        // the recorded findings are matched on the exact program as well, so that any other crash stays a violation
+        let class = if meta.template.starts_with("abort-") { format!("{class}:{}", meta.template) } else { class };
         let detail = match r.hang_detail() {
             Some(d) => format!("{c}: {d}"),
             None => c,
@@ -866,11 +868,11 @@ pub fn judge(s: &Scenario, r: &RunResult) -> Judged {
 
 pub const LINTS: &[&str] = &["All", "Deprecated", "BrokenDocLink", "IncorrectDocComment", "MalformedDocComment", "DuplicateFile"];
 
-pub fn generate_c07(rng: &mut Rng) -> Scenario {
+pub fn generate_c07(rng: &mut Rng, forced_template: Option<&'static str>) -> Scenario {
     let mut world = World::default();
     let mut sim = base_sim(rng);
-    // which kind of world
-    let kind = rng.below(10);
+    // which kind of world (a forced template is an erroneous program)
+    let kind = if forced_template.is_some() { 5 } else { rng.below(10) };
     let (want_clean, want_warn, want_err) = match kind {
         0..=2 => (true, false, false),
         3..=4 => (false, true, false),
@@ -879,7 +881,9 @@ pub fn generate_c07(rng: &mut Rng) -> Scenario {
     };
     let io_error = kind >= 8;
     let templates: Vec<&'static str> = catalogue::by_class(want_clean, want_warn, want_err);
-    let program = if rng.chance(1, 4) {
+    let program = if let Some(t) = forced_template {
+        catalogue::instantiate(t, rng)
+    } else if rng.chance(1, 4) {
         // a seeded random program; an injected error (cycle / redefinition / unresolved type) when an error is wanted
         let inject = if want_err { 1 + rng.below(3) as u8 } else { 0 };
         catalogue::random_program(rng, inject)
